@@ -212,58 +212,135 @@ type Snapshot struct {
 	StateDB    *dbm.MemDB
 	HeadSynced int64 // size of the WAL head file at the last successful fsync
 	HeadOnDisk int64 // size of the WAL head file at the crash instant (flushed bytes)
+	// operations on the two databases that were not followed by a synced write yet (see pdb)
+	BlockUnsynced, StateUnsynced [][]dbUndo
 }
 
 // ---------------------------------------------------------------------------------------------------------------
 // wrappers
 
-// pdb wraps a MemDB: every mutation is a persistence operation (batches are atomic, as in goleveldb).
+// pdb wraps a MemDB: every mutation is a persistence operation (batches are atomic, as in goleveldb). Writes that
+// were not requested as synced (Set / Delete / Batch.Write) are journalled with their undo information until the next
+// synced write on the same database: a crash that loses power (History.DBLoss > 0) loses a suffix of them, as a
+// sequential write-ahead journal does (a later synced write makes everything before it durable).
 type pdb struct {
 	*dbm.MemDB
-	c    *Crasher
-	name string
+	c        *Crasher
+	name     string
+	unsynced [][]dbUndo // one group per unsynced operation (a batch is one group), oldest first
+}
+
+type dbUndo struct {
+	key     []byte
+	old     []byte
+	existed bool
+}
+
+func (d *pdb) undoOf(k []byte) dbUndo {
+	old, _ := d.MemDB.Get(k)
+	u := dbUndo{key: append([]byte(nil), k...), existed: old != nil}
+	if old != nil {
+		u.old = append([]byte(nil), old...)
+	}
+	return u
 }
 
 func (d *pdb) Set(k, v []byte) error {
 	d.c.Point(d.name + ".Set:before")
+	u := d.undoOf(k)
 	err := d.MemDB.Set(k, v)
+	if err == nil {
+		d.unsynced = append(d.unsynced, []dbUndo{u})
+	}
 	d.c.Point(d.name + ".Set:after")
 	return err
 }
 func (d *pdb) SetSync(k, v []byte) error {
 	d.c.Point(d.name + ".SetSync:before")
 	err := d.MemDB.SetSync(k, v)
+	if err == nil {
+		d.unsynced = nil
+	}
 	d.c.Point(d.name + ".SetSync:after")
 	return err
 }
 func (d *pdb) Delete(k []byte) error {
 	d.c.Point(d.name + ".Delete:before")
+	u := d.undoOf(k)
 	err := d.MemDB.Delete(k)
+	if err == nil {
+		d.unsynced = append(d.unsynced, []dbUndo{u})
+	}
 	d.c.Point(d.name + ".Delete:after")
 	return err
 }
 func (d *pdb) DeleteSync(k []byte) error {
 	d.c.Point(d.name + ".DeleteSync:before")
 	err := d.MemDB.DeleteSync(k)
+	if err == nil {
+		d.unsynced = nil
+	}
 	d.c.Point(d.name + ".DeleteSync:after")
 	return err
 }
 func (d *pdb) NewBatch() dbm.Batch { return &pbatch{Batch: d.MemDB.NewBatch(), d: d} }
 
-type pbatch struct {
-	dbm.Batch
-	d *pdb
+// copyUnsynced: the journal of unsynced operations as it stands (taken at the crash instant).
+func (d *pdb) copyUnsynced() [][]dbUndo {
+	out := make([][]dbUndo, len(d.unsynced))
+	for i, g := range d.unsynced {
+		out[i] = append([]dbUndo(nil), g...)
+	}
+	return out
 }
 
+// loseTail undoes the last n unsynced operations on db (a copy taken at the same instant as the journal).
+func loseTail(db *dbm.MemDB, journal [][]dbUndo, n int) {
+	for i := len(journal) - 1; i >= 0 && n > 0; i, n = i-1, n-1 {
+		g := journal[i]
+		for j := len(g) - 1; j >= 0; j-- {
+			if g[j].existed {
+				db.Set(g[j].key, g[j].old) //nolint
+			} else {
+				db.Delete(g[j].key) //nolint
+			}
+		}
+	}
+}
+
+type pbatch struct {
+	dbm.Batch
+	d    *pdb
+	keys [][]byte
+}
+
+func (b *pbatch) Set(k, v []byte) error {
+	b.keys = append(b.keys, append([]byte(nil), k...))
+	return b.Batch.Set(k, v)
+}
+func (b *pbatch) Delete(k []byte) error {
+	b.keys = append(b.keys, append([]byte(nil), k...))
+	return b.Batch.Delete(k)
+}
 func (b *pbatch) Write() error {
 	b.d.c.Point(b.d.name + ".Batch.Write:before")
+	var g []dbUndo
+	for _, k := range b.keys {
+		g = append(g, b.d.undoOf(k))
+	}
 	err := b.Batch.Write()
+	if err == nil && len(g) > 0 {
+		b.d.unsynced = append(b.d.unsynced, g)
+	}
 	b.d.c.Point(b.d.name + ".Batch.Write:after")
 	return err
 }
 func (b *pbatch) WriteSync() error {
 	b.d.c.Point(b.d.name + ".Batch.WriteSync:before")
 	err := b.Batch.WriteSync()
+	if err == nil {
+		b.d.unsynced = nil
+	}
 	b.d.c.Point(b.d.name + ".Batch.WriteSync:after")
 	return err
 }
@@ -510,6 +587,8 @@ type PNode struct {
 	// first violation of the part-set invariant (C10 at node level) seen at a quiescent point
 	PartViolation string
 	ForgedParts   int // forged block parts the harness has sent to this incarnation
+	blockDB       *pdb
+	stateDB       *pdb
 }
 
 // Boot starts an incarnation from p. An injected crash during recovery surfaces as (*PNode with Snap set, sig).
@@ -533,6 +612,7 @@ func Boot(p *Persist, armAt int) (n *PNode, crashed *CrashSignal, err error) {
 	}()
 	blockDB := &pdb{MemDB: p.BlockDB, c: n.C, name: "blockdb"}
 	stateDB := &pdb{MemDB: p.StateDB, c: n.C, name: "statedb"}
+	n.blockDB, n.stateDB = blockDB, stateDB
 	n.StateStore = sm.NewStore(stateDB, sm.StoreOptions{DiscardABCIResponses: p.DiscardABCIResponses})
 	n.BlockStore = store.NewBlockStore(blockDB)
 	state, err := n.StateStore.LoadFromDBOrGenesisDoc(p.GenDoc)
@@ -650,6 +730,9 @@ func (n *PNode) snapshot() {
 	dst := filepath.Join(p.Root, fmt.Sprintf("snap%d", p.Inc))
 	os.MkdirAll(filepath.Join(dst, "wal"), 0o700) //nolint
 	s := &Snapshot{Dir: dst, BlockDB: copyDB(p.BlockDB), StateDB: copyDB(p.StateDB)}
+	if n.blockDB != nil {
+		s.BlockUnsynced, s.StateUnsynced = n.blockDB.copyUnsynced(), n.stateDB.copyUnsynced()
+	}
 	copyFile(p.keyFile(), filepath.Join(dst, "priv_validator_key.json"))     //nolint
 	copyFile(p.stateFile(), filepath.Join(dst, "priv_validator_state.json")) //nolint
 	ents, _ := os.ReadDir(filepath.Join(p.dir(), "wal"))
@@ -663,6 +746,15 @@ func (n *PNode) snapshot() {
 		}
 		s.HeadSynced = n.WAL.HeadSynced
 		s.HeadOnDisk = n.WAL.stat()
+		if n.CS != nil {
+			if w := n.CS.VerifWAL(); w != nil && w != consensus.WAL(n.WAL) {
+				// The start-up repair has replaced the WAL object and this State is living its last moments before Boot
+				// stops it (see Boot): what it logged since went through the new, unwrapped WAL, whose syncs the wrapper
+				// has not seen. Its synced writes are on disk; whatever it still buffers is lost; nothing in between is
+				// explored for this short window (cutting inside the file could tear a record that WAS synced).
+				s.HeadSynced = s.HeadOnDisk
+			}
+		}
 	} else {
 		if fi, err := os.Stat(p.walFile()); err == nil {
 			s.HeadSynced, s.HeadOnDisk = fi.Size(), fi.Size()
@@ -752,6 +844,33 @@ func (p *Persist) Restore(s *Snapshot, cutAt int64) error {
 	}
 	p.BlockDB, p.StateDB = s.BlockDB, s.StateDB
 	return nil
+}
+
+// LoseUnsyncedDBWrites models a crash that loses power: of the operations on each database that no synced write
+// followed, the last ceil(frac * n) are lost (frac in [0,1]; 0 = a process crash, nothing lost). Call before Restore.
+func (s *Snapshot) LoseUnsyncedDBWrites(frac float64) (lostBlock, lostState int) {
+	if frac <= 0 {
+		return 0, 0
+	}
+	if os.Getenv("VERIF_DEBUG_DBLOSS") != "" {
+		for _, g := range s.BlockUnsynced {
+			for _, u := range g {
+				fmt.Printf("blockdb unsynced: %q existed=%v\n", u.key, u.existed)
+			}
+		}
+		for _, g := range s.StateUnsynced {
+			for _, u := range g {
+				fmt.Printf("statedb unsynced: %q existed=%v\n", u.key, u.existed)
+			}
+		}
+		fmt.Printf("--- losing fraction %v\n", frac)
+	}
+	lostBlock = int(frac*float64(len(s.BlockUnsynced)) + 0.999999)
+	lostState = int(frac*float64(len(s.StateUnsynced)) + 0.999999)
+	loseTail(s.BlockDB, s.BlockUnsynced, lostBlock)
+	loseTail(s.StateDB, s.StateUnsynced, lostState)
+	s.BlockUnsynced, s.StateUnsynced = nil, nil
+	return lostBlock, lostState
 }
 
 // ---------------------------------------------------------------------------------------------------------------
